@@ -157,6 +157,24 @@ def run(fx, chk, tier):
                     disp = ("match", {"arms": [{"pat": m["cond"]["pat"], "body": m["then"]}, {"pat": {"k": "wild"}, "body": m.get("else") or {"k": "block", "stmts": []}}]})
                     break
             if disp is None:
+                # the child type is classified by a helper and the loop branches on its answer:
+                # `if let Some(k) = classify(name) { .. } else { skip }` / `match classify(name) { Some(k) => .., None => skip }`
+                def _on_name(e):
+                    return e.get("k") in ("call", "mcall") and any(hirq.path_str(hirq.strip_wrappers(a)) == nm for a in (e.get("args") or []))
+                for m, ps in hirq.walk(loop["body"]):
+                    if m.get("k") == "if" and m["cond"].get("k") == "letx" and _on_name(hirq.strip_wrappers(m["cond"]["init"])) and (m["cond"]["pat"].get("def") or "").endswith("Option::Some"):
+                        disp = ("match", {"arms": [{"pat": m["cond"]["pat"], "body": m["then"]}, {"pat": {"k": "wild"}, "body": m.get("else") or {"k": "block", "stmts": []}}]})
+                        break
+                    if m.get("k") == "match" and m.get("src") == "match" and _on_name(hirq.strip_wrappers(m["scrut"])):
+                        arms2 = []
+                        for a in m["arms"]:
+                            if (a["pat"].get("def") or "").endswith("Option::None") or hirq.pat_str(a["pat"]) == "None":
+                                arms2.append({"pat": {"k": "wild"}, "body": a["body"]})
+                            else:
+                                arms2.append(a)
+                        disp = ("match", {"arms": arms2})
+                        break
+            if disp is None:
                 chk.bad("R1", key + "|dispatch", "box-walk loop without a recognisable dispatch on the child type", site)
                 continue
             ndisp += 1
